@@ -329,6 +329,12 @@ impl Shared {
                 self.i += 1;
                 Err(io::Error::new(io::ErrorKind::WouldBlock, "pending"))
             },
+            "pongerr" => {
+                // the transport fails this write of the keep-alive reply
+                self.i += 1;
+                let kinds = [io::ErrorKind::BrokenPipe, io::ErrorKind::ConnectionReset, io::ErrorKind::TimedOut];
+                Err(io::Error::new(kinds[self.i % kinds.len()], "scripted transient error"))
+            },
             "cancel" if is_async => Err(io::Error::new(io::ErrorKind::WouldBlock, "pending")),
             other => {
                 self.fail(format!(
@@ -775,7 +781,8 @@ pub fn replay_blocking(pool: Arc<Pool>, verify: bool, steps: Vec<Step>, seed: u6
     if let Some(m) = &s.mismatch {
         return ReplayVerdict::Mismatch(m.clone());
     }
-    if s.cur_out.is_some() {
+    // (after a failed write of the reply the model's connection is finished and a partial reply may be on the wire)
+    if s.cur_out.is_some() && !s.steps.iter().any(|st| st.a == "pongerr") {
         return ReplayVerdict::Mismatch("a partial frame is left on the outgoing side".into());
     }
     ReplayVerdict::Ok
@@ -930,7 +937,7 @@ pub fn replay_tokio(pool: Arc<Pool>, verify: bool, steps: Vec<Step>, seed: u64) 
         if let Some(m) = &s.mismatch {
             return ReplayVerdict::Mismatch(m.clone());
         }
-        if s.cur_out.is_some() {
+        if s.cur_out.is_some() && !s.steps.iter().any(|st| st.a == "pongerr") {
             return ReplayVerdict::Mismatch("a partial frame is left on the outgoing side".into());
         }
         ReplayVerdict::Ok
